@@ -267,6 +267,16 @@ def parse_compile(res):
             d["prints"].append(bytes.fromhex(x).decode())
     return d
 
+def real_header(ctx):
+    """the header compile_json REALLY writes in front of the returned text (observed, not assumed)"""
+    from vlib import hexs
+    r = parse_compile(ctx.impl(["compile\t%s\t%s\tT%s" % (hexs("hdrprobe"), hexs("out"), hexs('{"a":1}'))])[0])
+    if r["ret"] != "OK" or not r["files"]:
+        raise RuntimeError("cannot observe the generated header: %r" % r["raw"][:200])
+    data = list(r["files"].values())[0].decode()
+    assert data.endswith(r["text"]), "written file is not <header> + returned text"
+    return data[: len(data) - len(r["text"])]
+
 def parse_model_compile(res):
     d = {"raw": res, "ret": None, "text": None, "writes": [], "reads": [], "prints": [], "nowrite": None}
     tok = res.split(' ')
